@@ -17,6 +17,7 @@ import GocoinV.Proofs.C16Window
 import GocoinV.Proofs.C16Top
 import GocoinV.Proofs.C16Stale
 import GocoinV.Proofs.C16Files
+import GocoinV.Proofs.C16NC
 namespace GocoinV.Props.C16
 open GocoinV GocoinV.BlockDB
 
@@ -698,5 +699,68 @@ set_option maxRecDepth 1000000 in
 theorem panicking_invalid_keeps_claim :
     (run (toyEnv true) init panicHistory).2.drop 3 = [.panic, .data blkA true] ∧
     (specRunR (toyEnv true) init {} panicHistory).drop 3 = [.nothing, .data blkA true] := by decide
+
+/-! ## the one-pass read `BlockGetInternal(hash, do_not_cache = true)` (Model/BlockDBNC.lean) -/
+
+/-- The one-pass read (Chain.ParseTillBlock, Chain.UndoLastBlock, the rescan loop) answers exactly what `BlockGet` answers in
+    the same state — the stored bytes or the same error — whatever the state is. -/
+theorem onepass_read_reply_is_get_reply (env : Env) (s : State) (hash : Bytes) :
+    (blockGetNC env s hash).2 = (blockGet env s hash).2 := blockGetNC_out env s hash
+
+/-- The one-pass read never lets go of a cached block: after it the cache holds the same keys with the same bytes (on a hit
+    only `LastUsed` moves, on a miss the cache is untouched), and every index record keeps its position, flags and identity. -/
+theorem onepass_read_keeps_cache (env : Env) (s : State) (hash : Bytes) (k : Key) :
+    (AL.get (blockGetNC env s hash).1.cache k).map (·.data) = (AL.get s.cache k).map (·.data) ∧
+    (AL.get (blockGetNC env s hash).1.index k).map (fun r => (r.ipos, r.trusted, r.seq, r.datfileidx, r.fpos, r.blen))
+      = (AL.get s.index k).map (fun r => (r.ipos, r.trusted, r.seq, r.datfileidx, r.fpos, r.blen)) :=
+  ⟨blockGetNC_cache env s hash k, blockGetNC_index env s hash k⟩
+
+/-- A block that sits in the cache — for a block whose write is still queued that is the only copy — is answered by `BlockGet`
+    with the cached bytes after a one-pass read of ANY block, that block itself included. -/
+theorem onepass_read_then_get (env : Env) (s : State) (hash hash' : Bytes) (r : Rec) (c : CacheEnt)
+    (hr : AL.get s.index (keyOf hash') = some r) (hc : AL.get s.cache (keyOf hash') = some c) :
+    (blockGet env (blockGetNC env s hash).1 hash').2 = .data c.data r.trusted :=
+  blockGetNC_queued_readable env s hash hash' r c hr hc
+
+/-- the hypotheses of `onepass_read_then_get` hold for a block that was just added (queued: `ipos = none`, cached) -/
+example : (AL.get (run (toyEnv true) init [.reopen optsW, .add (hashW blkA) 10 1 false blkA]).1.index (keyOf (hashW blkA))).map (·.ipos) = some none ∧
+    (AL.get (run (toyEnv true) init [.reopen optsW, .add (hashW blkA) 10 1 false blkA]).1.cache (keyOf (hashW blkA))).map (·.data) = some blkA := by
+  decide
+
+/-- add A (queued), one-pass read of A, BlockGet of A, flush, one-pass read, BlockGet -/
+def onepassHistory : List OpX :=
+  [.op (.reopen optsW), .op (.add (hashW blkA) 10 1 false blkA), .getNC (hashW blkA), .op (.get (hashW blkA)), .op .idle,
+   .getNC (hashW blkA), .op (.get (hashW blkA))]
+
+set_option maxRecDepth 1000000 in
+/-- the hypotheses of `onepass_read_then_get` hold for a queued block, and the claims below are real ones -/
+example : (runX (toyEnv true) init onepassHistory).2.drop 2 = [.data blkA false, .data blkA false, .ok, .data blkA false, .data blkA false] ∧
+    (specRunRX (toyEnv true) init {} onepassHistory).drop 2 = [.data blkA false, .data blkA false, .nothing, .data blkA false, .data blkA false] := by
+  decide
+
+/-- store_refines_map WITH ONE-PASS READS, one session on a fresh directory, ANY options (cache size, compression, data-file
+    size, retention, backup), any codec that round-trips: for every sequence of add / get / length / mark-trusted /
+    mark-invalid / idle-flush / close AND one-pass reads `BlockGetInternal(hash, true)` in any order, every read — caching or
+    one-pass — of a key that was added, never marked invalid and whose data file is within retention returns the bytes of its
+    first add and the latest trusted flag (`claimRX` demands of a one-pass read what `claimR` demands of `get`).
+    `_partial`: one session; the restart theorems (`store_refines_map`, `reopen_index`) are stated over `Op`, which has the
+    caching read only — the index-file invariants were not re-proved for `OpX` (the one-pass read changes no file and no
+    record field but `olen`: `onepass_read_keeps_cache`). -/
+theorem store_refines_map_onepass_partial (env : Env)
+    (hrt : ∀ x : Bytes, x.length ≤ 0xffffffff → env.dec (env.enc x) = some x) (hne : ∀ x, env.enc x ≠ [])
+    (o : Opts) (ops : List OpX) (hops : ∀ op ∈ ops, op.ok) :
+    AllHold (specRunRX env init {} (.op (.reopen o) :: ops)) (runX env init (.op (.reopen o) :: ops)).2 :=
+  session_refinesRX env ⟨hrt, hne⟩ o ops hops
+
+example : ∀ op ∈ onepassHistory.drop 1, op.ok := by
+  intro op h
+  simp only [onepassHistory, List.drop, List.mem_cons, List.not_mem_nil, or_false] at h
+  rcases h with h | h | h | h | h | h <;> subst h <;> first | exact trivial | exact ⟨rfl, by simp [Op.sizeOK, blkA, mkBlock]⟩
+
+/-- the same with the snappy model as codec — the environment `oracle_c16` runs -/
+theorem store_refines_map_onepass_snappy_partial (hash : Bytes → Bytes) (adv : Bool)
+    (o : Opts) (ops : List OpX) (hops : ∀ op ∈ ops, op.ok) :
+    AllHold (specRunRX (snappyEnv hash adv) init {} (.op (.reopen o) :: ops)) (runX (snappyEnv hash adv) init (.op (.reopen o) :: ops)).2 :=
+  session_refinesRX _ (snappyEnv_ok hash adv) o ops hops
 
 end GocoinV.Props.C16
